@@ -8,7 +8,8 @@ import Mdns.Props.C03
   exactly the missing records) and the resolution step (an update that touches an instance
   whose records are complete and usable emits `ServiceResolved` in that very step).  The
   completeness INVARIANT over histories is stated (`ResolvedComplete_full`) and refuted on a
-  concrete history: only NEW records count as updates in `handle_response`.
+  concrete history: only NEW (or revived) records count as updates in `handle_response`, a
+  record that is refreshed while in its last second does not.
 -/
 namespace Mdns.Props.C04
 open Mdns Mdns.Rec Mdns.Cache Mdns.Client
@@ -178,6 +179,52 @@ theorem touched_by (c : Cache) (changes : List (Nat × BList)) (inst : BList) :
   · exact ⟨(1, host), h, by simp [hi]⟩
   · exact ⟨(28, host), h, by simp [hi]⟩
 
+/-! ### revived records are updates (repair of the D24 family) -/
+
+/-- the `is_new` flag `add_or_update` returns, as a function of the entries `es` cached under
+    the name of the incoming record -/
+def newFlag (inc : Record) (now : Nat) (es : List Entry) : Bool :=
+  !hasMatch inc (flushList inc now es) ||
+    (((flushList inc now es)[upsertIdx inc (flushList inc now es)]?).map fun old =>
+      decide (old.record.ttl ≤ 1 ∧ inc.ttl > 1)).getD false
+
+theorem addOrUpdate_flag (c : Cache) (srcName : BList) (srcIdx : Nat) (inc : Record) (now : Nat) (forUs : Bool) (s : Slot)
+    (hs : slotOf inc.ty = some s) (x : Entry × Bool) (hx : (addOrUpdate c srcName srcIdx inc now forUs).result = some x) :
+    x.2 = newFlag inc now ((((noteSubtype c inc forUs).table s).get (keyOf s inc.name)).getD []) := by
+  unfold addOrUpdate at hx
+  simp only [hs] at hx
+  split at hx
+  · cases hx
+  · simp only [Option.map_eq_some_iff] at hx
+    obtain ⟨e, _, rfl⟩ := hx
+    rfl
+
+/-- **A record that was withdrawn and is announced again is reported as new**: if every cached
+    copy matching the incoming record is a withdrawn one (TTL ≤ 1: a goodbye is kept with TTL 1
+    for one more second) and the incoming TTL is above 1, `add_or_update` answers `is_new`, so
+    `handle_response` treats it as an update (`touched_by`) and re-resolves the instance. -/
+theorem revived_is_new (inc : Record) (now : Nat) (es : List Entry) (hinc : inc.ttl > 1)
+    (hrev : ∀ e ∈ es, e.record.matchesRec inc = true → e.record.ttl ≤ 1) : newFlag inc now es = true := by
+  unfold newFlag
+  cases hm : hasMatch inc (flushList inc now es) with
+  | false => rfl
+  | true =>
+    obtain ⟨pre, e, post, h1, _, h3, _, h5⟩ := resetFirst_spec inc _ hm
+    have hidx : upsertIdx inc (flushList inc now es) = pre.length := by simp [upsertIdx, hm, h5]
+    have hget : (flushList inc now es)[pre.length]? = some e := by
+      rw [h1]; simp
+    have hmem : e ∈ flushList inc now es := by rw [h1]; simp
+    obtain ⟨e0, he0, lo⟩ := listLow_flushList inc now es e hmem
+    have hm0 : e0.record.matchesRec inc = true := by
+      rw [matchesRec_iff] at h3 ⊢
+      obtain ⟨l1, l2, l3, l4, l5, _, _, _⟩ := lo
+      exact ⟨l1 ▸ h3.1, l2 ▸ h3.2.1, l3 ▸ h3.2.2.1, l4 ▸ h3.2.2.2.1, l5 ▸ h3.2.2.2.2⟩
+    have httl : e.record.ttl ≤ 1 := by
+      have := hrev e0 he0 hm0
+      rw [lo.2.2.2.2.2.2.1]
+      exact this
+    simp [hidx, hget, httl, hinc]
+
 /-! ### the completeness invariant: stated, and refuted as it stands -/
 
 /-- the records of `inst` are complete and usable in the cache for the browse of `ty` -/
@@ -194,26 +241,48 @@ def ResolvedComplete_full : Prop :=
     Complete (run (init t0 intfs) h).1 now ty inst → inst ∈ (run (init t0 intfs) h).1.resolved
 
 open C03 in
-/-- the address arrives first as a goodbye (TTL 0, stored as 1) and is announced again within
-    the second: the second copy only refreshes the cached entry, it is not a NEW record, so
-    nothing re-resolves the instance although PTR, SRV, TXT and address are all usable now -/
-def gapHistory : List (Nat × List Packet × List Command) :=
+/-- regression (repair of the D24 family): the address arrives first as a goodbye (TTL 0,
+    stored as 1) and is announced again within the second.  `add_or_update` now reports such a
+    revived record as new, so the instance is resolved in that step. -/
+def revivedHistory : List (Nat × List Packet × List Command) :=
   [(1000, [], [.browse ty 1 false]),
    (1500, [{ announce with msg := { announce.msg with additionals :=
        [wrec inst 33 120 (.srv 0 0 80 host), wrec inst 16 120 (.txt [1, 0x61]), wrec host 1 1 (.a [10, 0, 0, 1])] } }], []),
    (1600, [{ announce with msg := { announce.msg with answers := [wrec host 1 120 (.a [10, 0, 0, 1])], additionals := [] } }], [])]
 
 open C03 in
+example :
+    ((run (init 1000 [eth0]) revivedHistory).2.filter
+        fun o => match o.2 with | .event _ (.resolved _) => true | _ => false) =
+      [(1600, .event 1 (.resolved theEvent))] ∧
+    ((run (init 1000 [eth0]) revivedHistory).1.resolved.contains inst) = true := by decide
+
+open C03 in
+/-- The address is cached with a short TTL (2 s); PTR, SRV and TXT arrive while it is in its
+    last second (`expires_soon`: the instance cannot be resolved yet), and 100 ms later the
+    address is announced again.  The second copy only refreshes the cached entry (its old TTL
+    was 2, not a withdrawn record), it is not an update for `handle_response`, and nothing
+    re-resolves the instance although PTR, SRV, TXT and address are all usable from then on. -/
+def gapHistory : List (Nat × List Packet × List Command) :=
+  [(1000, [], [.browse ty 1 false]),
+   (1500, [{ announce with msg := { announce.msg with answers := [wrec host 1 2 (.a [10, 0, 0, 1])], additionals := [] } }], []),
+   (2600, [{ announce with msg := { announce.msg with additionals :=
+       [wrec inst 33 120 (.srv 0 0 80 host), wrec inst 16 120 (.txt [1, 0x61])] } }], []),
+   (2700, [{ announce with msg := { announce.msg with answers := [wrec host 1 120 (.a [10, 0, 0, 1])], additionals := [] } }], []),
+   (9000, [], [])]
+
+open C03 in
 theorem resolvedComplete_witness :
-    (resolveFromCache (run (init 1000 [eth0]) gapHistory).1.cache 1600 ty inst).valid = true ∧
+    (resolveFromCache (run (init 1000 [eth0]) gapHistory).1.cache 9000 ty inst).valid = true ∧
     ((run (init 1000 [eth0]) gapHistory).1.resolved.contains inst) = false := by decide
 
 /-- `ResolvedComplete_full` does not hold of the model (hence, by the correspondence, of the
-    code): witness `gapHistory` (goodbye-first address; the same shape as finding D24 for PTRs) -/
+    code): witness `gapHistory` (a record refreshed in its last second; the same history
+    reproduces on the real daemon, `corpus-candidates/C04/addr_refreshed_in_last_second.ops`) -/
 theorem resolvedComplete_full_false : ¬ ResolvedComplete_full := by
   intro h
   have hw := resolvedComplete_witness
-  have := h 1000 [C03.eth0] gapHistory 1600 C03.ty C03.inst (by decide) ⟨by decide, by decide, hw.1⟩
+  have := h 1000 [C03.eth0] gapHistory 9000 C03.ty C03.inst (by decide) ⟨by decide, by decide, hw.1⟩
   have hc : ((run (init 1000 [C03.eth0]) gapHistory).1.resolved.contains C03.inst) = true := by simpa using this
   rw [hw.2] at hc
   cases hc
